@@ -21,7 +21,7 @@ GENS = [
     ("bomb", 8, 16, [], ["--big", "1"]),
     # machines at the documented size limit: encodings of exactly MAX, MAX-1, MAX-2, MAX-4096
     # bytes (must round-trip), MAX+1 (serialize panics; model predicts it), largest whole multiple
-    ("limit", 5, 12, [], []),
+    ("limit", 7, 14, [], []),
 ]
 
 
